@@ -15,7 +15,11 @@ static FOUND: std::sync::Mutex<Vec<(u64, u64, String)>> = std::sync::Mutex::new(
 /// collision was found) also remember the FEN of every position whose hash is being watched.
 fn note(ctx: &mut Ctx, hash: u64, p: &Pos) {
     let k = key_of(p);
-    ctx.bag.push((hash, k));
+    // the global map is capped at 4M entries per shard (64M in all): with N = 6.4e7 the chance of
+    // a coincidental 64-bit collision in a run is N^2 / 2^65 = 1.1e-4
+    if ctx.bag.len() < 4_000_000 {
+        ctx.bag.push((hash, k));
+    }
     if let Some(w) = WATCH.get() {
         if w.contains(&hash) {
             FOUND.lock().unwrap().push((hash, k, p.fen()));
@@ -306,7 +310,7 @@ pub fn run(cfg: &Cfg) -> i32 {
         EvidenceSpec {
             rule: "cases = every position on golden and generated histories goes into a global map hash -> position identity; one position in four additionally gets all its single-component siblings built through BoardBuilder: each non-king man removed / retyped / recoloured / moved to two empty squares, side to move flipped (also via null_move), every proper subset of the castling rights held, en-passant state absent vs present on each possible file. evaluations = positions + siblings compared. Non-trivial = a sibling differing in castling rights, en-passant file or side to move, or a global map of >= 100000 distinct positions; distinct = fingerprints of (position, sibling).".into(),
             assumptions: vec![
-                "with N <= 1e7 distinct positions the expected number of chance collisions is N^2/2^65 < 3e-6; any collision is reported (false-alarm probability per run < 1e-5)".into(),
+                "the global map holds at most 6.4e7 distinct positions, so the expected number of chance collisions is N^2/2^65 <= 1.1e-4; any collision is reported (false-alarm probability per run about 1e-4)".into(),
                 "says nothing about adversarially constructed collisions".into(),
             ],
             trusted_base: vec!["harness/src/refmodel.rs (position identity)".into(), "proptest 1.11".into()],
